@@ -67,6 +67,9 @@ PROBES = [
     ('probe:double-bar', 'P(x) :- x == "a" || "b", (Q(x) | R(x));'),
     ('probe:empty-subscript', 'P(x[ ]);'),
     ('probe:denotation-inside-identifier', 'X(u) += My_limit(0, d, c: e);'),
+    ('probe:octal-escape-in-single-quoted-string', "P('\\101');"),
+    ('probe:big-U-escape-in-single-quoted-string', "P('\\U0001F600');"),
+    ('probe:bell-backspace-formfeed-escapes', "P('\\a\\b\\f\\v');"),
 ]
 
 
